@@ -12,7 +12,7 @@ META = {
     'assumptions': ['the generator is the reference typer: well-typedness holds by construction, ill-typedness by the single injected fault'],
     'floors': {'matrix_cells': 400, 'welltyped_accepted': 100, 'illtyped_rejected': 300, 'fault_contexts': 6, 'fault_block_depths': 3, 'static_dynamic_pairs': 300},
 }
-SIZES = {'quick': 700, 'thorough': 20000}
+SIZES = {'quick': 2100, 'thorough': 20000}
 
 def make_gen(r, cfg, feats, state, inject_at=None):
     r.setstate(state)
